@@ -181,7 +181,7 @@ pub mod boundary {
                 )
             };
 
-            let other = self.inner.0.lock().unwrap();
+            let other = other.inner.0.lock().unwrap();
 
             // SAFETY: The rawlist represents a slice of T::Transformed so
             // we can safely construct a slice from it's parts as long as we
